@@ -95,6 +95,12 @@ def spec_for(A, b, spelling):
         if spelling == 'cells':
             terms = [f'{A[i][j]!r}*A{j + 1}' for j in range(n) if A[i][j] != 0]
             expr = '+'.join(terms + [f'B{i + 1}'])
+        elif spelling == 'offset':
+            # the cycle is closed at run time only: the other cells are reached through OFFSET / INDIRECT, which leave no
+            # edge in the dependency graph
+            terms = [(f'{A[i][j]!r}*N(OFFSET($C$1,{j},-2))' if (i + j) % 2 == 0 else f'{A[i][j]!r}*N(INDIRECT("A"&{j + 1}))')
+                     for j in range(n) if A[i][j] != 0]
+            expr = '+'.join(terms + [f'B{i + 1}'])
         else:   # through a range: only when the row is constant a over all columns
             expr = f'{A[i][0]!r}*SUM(A1:A{n})+B{i + 1}'
         cells[f'A{i + 1}'] = f'=VTICK({i + 1},{expr})'
@@ -131,7 +137,7 @@ def check_run(A, b, log_before, res, iterations, tol, first, acc, base, stage):
                                   f'> tolerance {tol} (A={A}, b={b})')
                     ok = False
                     break
-        if ok and isinstance(res, (int, float)) and passes >= 2:
+        if ok and isinstance(res, (int, float)) and passes >= 1:
             xstar = solve(A, b)
             err = abs(Fraction(res) - xstar[first])
             bound = Fraction(q).limit_denominator(1000) / (1 - Fraction(q).limit_denominator(1000)) * Fraction(tol) \
@@ -226,7 +232,7 @@ def work_a(job):
     tmp = tempfile.mkdtemp(prefix='c06_')
     try:
         for A, b in systems_:
-            spellings = ['cells'] + (['range'] if range_spellable(A) else [])
+            spellings = ['cells'] + (['range'] if range_spellable(A) else []) + (['offset'] if len(A) == 2 else [])
             for sp in spellings:
                 for it, tol in settings:
                     for first in range(len(A)):
